@@ -7,7 +7,6 @@ import (
 	"encoding/json"
 	"fmt"
 	"os"
-	"os/exec"
 	"path/filepath"
 	"strings"
 	"time"
@@ -114,6 +113,13 @@ func c14Work(w *Worker) {
 func c14Gen(w *Worker, text, variant string, o ygo.Options) ([]byte, *ygo.Result) {
 	path := filepath.Join(w.Scratch, fmt.Sprintf("c14-%d-%s.out", w.Shard, variant))
 	os.Remove(path)
+	b, res := c14GenAt(path, text, variant, o)
+	os.Remove(path)
+	return b, res
+}
+
+// c14GenAt generates to path, over whatever an earlier call left there.
+func c14GenAt(path, text, variant string, o ygo.Options) ([]byte, *ygo.Result) {
 	o.Unpack = gen.IsUnpack(variant)
 	o.Object = gen.IsObject(variant)
 	o.Fuel = 100_000_000
@@ -123,7 +129,6 @@ func c14Gen(w *Worker, text, variant string, o ygo.Options) ([]byte, *ygo.Result
 	}
 	res := ygo.Generate(lang, text, path, o)
 	b, _ := os.ReadFile(path)
-	os.Remove(path)
 	return b, res
 }
 
@@ -255,16 +260,21 @@ func c14Histories(w *Worker) {
 		if len(h) > 0 {
 			w.Count("histories", 1)
 			// replay the whole history, compare the last call
+			// all calls of a history write to ONE path, as a user regenerating a parser does: the file
+			// left by the previous call is part of the state the next call starts from
 			var out []byte
+			path := filepath.Join(w.Scratch, fmt.Sprintf("c14-%d-history.out", w.Shard))
+			os.Remove(path)
 			for _, c := range h {
 				if c.g < 0 {
-					c14Gen(w, broken[-1-c.g], c.v, ygo.Options{})
+					c14GenAt(path, broken[-1-c.g], c.v, ygo.Options{})
 					out = nil
 				} else {
-					out, _ = c14Gen(w, gen.Decorate(specs[c.g], nil, gen.UseAll).Source(c.v, "p"), c.v, ygo.Options{})
+					out, _ = c14GenAt(path, gen.Decorate(specs[c.g], nil, gen.UseAll).Source(c.v, "p"), c.v, ygo.Options{})
 				}
 				w.Count("evaluations", 1)
 			}
+			os.Remove(path)
 			last := h[len(h)-1]
 			if last.g < 0 {
 				// nothing to compare for a failing last call; longer histories continue from here
@@ -288,11 +298,9 @@ func c14Histories(w *Worker) {
 // several times per grammar and option set. A difference is a violation
 // shown on the real code; no difference proves nothing by itself.
 func c14Native(w *Worker, corpus []gram.Named) {
-	bin := filepath.Join(w.Scratch, "yaccgo-native")
-	cmd := exec.Command("go", "build", "-o", bin, "./yaccgo")
-	cmd.Dir = repoDir()
-	if out, err := cmd.CombinedOutput(); err != nil {
-		w.Note("INTERNAL: cannot build the native CLI: " + string(out))
+	bin, err := nativeCLI(w)
+	if err != nil {
+		w.Note("INTERNAL: cannot build the native CLI: " + err.Error())
 		return
 	}
 	dir := filepath.Join(w.Scratch, "c14-native")
